@@ -8,6 +8,7 @@ import (
 	"math/rand"
 	"os"
 	"runtime"
+	"runtime/debug"
 	"sort"
 	"strings"
 	"sync"
@@ -223,6 +224,34 @@ type runResult struct {
 	branches   []int
 }
 
+// theRun is set by main; guardLibrary needs it from goroutines that have no other handle on the run.
+var theRun *ev.Run
+
+// guardLibrary turns a panic raised inside the library (or by the runtime on its behalf: "WaitGroup is reused",
+// "negative WaitGroup counter") into a violation with the history so far.  The process cannot go on after that - other
+// workers may be blocked on the broken map for ever - so the run is finished at once.
+func guardLibrary(gen, mode string, h *history) {
+	if r := recover(); r != nil {
+		msg := fmt.Sprint(r)
+		class := "other"
+		switch {
+		case strings.Contains(msg, "WaitGroup is reused"):
+			class = "waitgroup-reused-before-wait-returned"
+		case strings.Contains(msg, "negative WaitGroup counter"):
+			class = "negative-waitgroup-counter"
+		case strings.Contains(msg, "nil pointer") || strings.Contains(msg, "interface conversion"):
+			class = "nil-or-wrong-type"
+		}
+		stack := string(debug.Stack())
+		if len(stack) > 3000 {
+			stack = stack[:3000]
+		}
+		hist := describe(h)
+		theRun.Violation(gen+"/library-panic/"+class, map[string]any{"generation": gen, "mode": mode, "panic": msg, "stack": stack, "history": hist})
+		theRun.Finish()
+	}
+}
+
 const quiescence = 2 * time.Millisecond
 
 // runControlled executes prog on a fresh map with the hook installed; choose picks which parked
@@ -242,6 +271,7 @@ func runControlled(g generation, prog program, choose chooser, stallAfter time.D
 		w := &worker{id: wi, resume: make(chan struct{}), state: wRunning}
 		c.workers = append(c.workers, w)
 		go func(w *worker, ops []op) {
+			defer guardLibrary(g.name, "controlled", h)
 			c.mu.Lock()
 			w.gid = curGid()
 			c.byGid[w.gid] = w
@@ -524,6 +554,7 @@ func randomProgram(rng *rand.Rand) program {
 
 func main() {
 	run := ev.Start("C18")
+	theRun = run
 	run.Rule("case = (generation, program of <=3 goroutines x <=2 ops over 2 keys, release schedule at the lazy map's yield hooks); " +
 		"distinct = distinct (program, hook trace) pairs, non-trivial = at least two operations overlap in the recorded history; " +
 		"each history is checked by porcupine v1.3.0 against the sequential map-with-compute-if-absent")
@@ -747,6 +778,7 @@ func stress(run *ev.Run, g generation, rng *rand.Rand, rounds int) {
 			wg.Add(1)
 			go func(wi int) {
 				defer wg.Done()
+				defer guardLibrary(g.name, "stress", h)
 				<-start
 				for oi, o := range progs[wi] {
 					e := &event{Worker: wi, Idx: oi, In: input{o.Kind, o.Key, fmt.Sprintf("g%d.%d", wi, oi)}}
